@@ -52,6 +52,8 @@ def sigma_pairs(fi: FuncInfo, roles: Optional[MergeRoles]) -> Dict[str, str]:
 
 
 def _split_at_loop(items: list):
+    from .rules_exits import main_path
+    items = main_path(items)[0]
     for k, it in enumerate(items):
         if it[0] == 'while':
             return items[:k + 1], items[k + 1:]
